@@ -33,7 +33,7 @@ CTYPES = ["application/json-rpc", "application/json", "text/x-\u00e9"]
 def cases_a(tier):
     for p in range(len(PAYLOADS)):
         for ct in CTYPES:
-            for kind in ("call", "notify", "batch", "kwargs"):
+            for kind in ("call", "notify", "batch", "kwargs", "raw-text", "raw-bytes"):
                 for scheme in ("tcp", "unix"):
                     yield (p, ct, kind, scheme)
 
@@ -54,6 +54,13 @@ def check_a(case):
                 proxy.echo(t=payload)
             elif kind == "notify":
                 proxy._notify.echo(payload)
+            elif kind in ("raw-text", "raw-bytes"):
+                # a request text that is not pure ASCII (what a JSON backend without ASCII escaping produces), given to the
+                # transport the way ServerProxy does: the declared length is that of the bytes sent
+                text = json.dumps({"jsonrpc": "2.0", "method": "echo", "params": [payload], "id": 1}, ensure_ascii=False)
+                t = proxy("transport")
+                host = "h.test" if scheme == "tcp" else "."
+                t.request(host, "/rpc", text if kind == "raw-text" else text.encode("utf-8"))
             else:
                 mc = jsonrpclib.MultiCall(proxy)
                 mc.echo(payload)
@@ -514,6 +521,11 @@ def cases_f(tier):
             for raw in (False, True):
                 for kind in ("http", "http-error", "http-notify", "cgi", "cgi-error"):
                     yield (vi, ct, raw, kind)
+                if not raw:
+                    # the CGI handler's own output encoding (constructor argument): the declared length is that of the bytes written
+                    for enc in ("utf-16", "utf-16-le", "utf-32", "utf-8-sig", "latin-1", "ascii", "cp1252"):
+                        yield (vi, ct, raw, "cgi:" + enc)
+                        yield (vi, ct, raw, "cgi-error:" + enc)
 
 
 def check_f(case):
@@ -545,7 +557,8 @@ def check_f(case):
                 except Exception as ex:
                     out.bad("C17/reply-body-not-utf8-json", "%r: %r" % (case, ex))
         else:
-            h = CGIJSONRPCRequestHandler(config=cfg)
+            kind, _, enc = kind.partition(":")
+            h = CGIJSONRPCRequestHandler(encoding=enc, config=cfg) if enc else CGIJSONRPCRequestHandler(config=cfg)
             h.register_function(lambda: val, "give")
             text = '{"jsonrpc":"2.0","method":"give","id":1}' if kind == "cgi" else '{"jsonrpc":"2.0","method":"nosuch-é","id":1}'
             bio = io.BytesIO()
@@ -604,7 +617,7 @@ META = {
     "delivery patterns; response-after-fault: a healthy response following a truncated / non-JSON / non-200 response larger than the read size on the same "
     "proxy; server-read: all compositions (<=2 cuts for longer bodies) of 6 bodies as short reads, plus a 10 MiB+1 body whose last character "
     "straddles the read chunk; reply-framing: 7 results x 2 content types x ASCII-escaping/raw UTF-8 backend x {HTTP result, error, notification, CGI result, "
-    "CGI error}; every case non-trivial",
+    "CGI error, and CGI handlers built with 7 other output encodings}; every case non-trivial",
     "bounds": {"quick": {"composition_bytes": 14, "cuts_beyond": 2}, "thorough": {"composition_bytes": 17, "cuts_beyond": 2}},
     "assumptions": [
         "short reads reach do_POST only through an unbuffered rfile (the default buffered rfile never returns them); both are driven",
